@@ -54,6 +54,9 @@
 (*                                a Go object attached does not convert it *)
 (*                                again: it runs on the contents the       *)
 (*                                record had at its last conversion        *)
+(*   back-sharing-lost            a Go object referenced twice comes back  *)
+(*                                as two records (the way back has no      *)
+(*                                memory of the objects it has seen)       *)
 (*   back-cyclic-value-overflows  a Go value that reaches itself kills the *)
 (*                                host process when it is handed back      *)
 (*                                (observable only once the conversion of  *)
@@ -90,18 +93,30 @@ OptOn(i) == CASE i = 1 -> DevOn("narrow-int-wraps") [] i = 2 -> DevOn("float-tru
               [] OTHER -> DevOn("narrow-int-wraps") /\ DevOn("float-truncated-into-int64")
 WithUint(o, b) == [o EXCEPT !.nouint = b]
 
+(* Pm: what the record is converted for -- <<"any">> (togo, or the receiver of a method: the struct the record *)
+(* names), <<"ptr", S>> (a method parameter of type *S: a record of another type is a value of the wrong      *)
+(* kind), <<"iface", I>> (a parameter of interface type I: the record's struct must implement it)              *)
+AnyP == <<"any">>
+FitsP(G, root, Pm) ==
+    \/ Pm[1] = "any"
+    \/ (Pm[1] = "ptr" /\ RegOf(G[root][1]) = Pm[2])
+    \/ (Pm[1] = "iface" /\ RegOf(G[root][1]) \in Impl(Pm[2]))
+FillP(G, root, Pm, o) == IF FitsP(G, root, Pm) THEN Fill(G, root, o) ELSE Err
+
 (* out is <<"ok", root, objs>>, <<"err">> or <<"crash">> *)
 Matches(e, out) == IF out[1] = "ok" THEN e.ok /\ out[2] = e.v /\ out[3] = e.st.objs
                    ELSE IF out[1] = "err" THEN ~e.ok ELSE FALSE
-MatchesU(G, root, o, out) == Matches(Fill(G, root, WithUint(o, FALSE)), out) \/ Matches(Fill(G, root, WithUint(o, TRUE)), out)
+MatchesU(G, root, Pm, o, out) ==
+    \/ Matches(FillP(G, root, Pm, WithUint(o, FALSE)), out)
+    \/ Matches(FillP(G, root, Pm, WithUint(o, TRUE)), out)
 
-FwdVerdict(G, root, out) ==
-    IF MatchesU(G, root, NoOpts, out) THEN "ok"
+FwdVerdict(G, root, Pm, out) ==
+    IF MatchesU(G, root, Pm, NoOpts, out) THEN "ok"
     ELSE IF out[1] = "crash"
     THEN (IF DevOn("cyclic-record-stack-overflow") /\ Cyclic(G, root) THEN "known:cyclic-record-stack-overflow" ELSE "bad")
-    ELSE LET hits == {i \in 1..3 : OptOn(i) /\ MatchesU(G, root, OptSets[i], out)}
+    ELSE LET hits == {i \in 1..3 : OptOn(i) /\ MatchesU(G, root, Pm, OptSets[i], out)}
              (* the most permissive reading of the record, to see what it references *)
-             eAll == Fill(G, root, OptSets[3])
+             eAll == FillP(G, root, Pm, OptSets[3])
          IN IF hits # {} THEN "known:" \o OptName(CHOOSE i \in hits : \A j \in hits : i <= j)
             ELSE IF /\ out[1] = "err" /\ DevOn("shared-record-kind-mismatch") /\ ~Cyclic(G, root)
                     /\ eAll.ok /\ MixedRefs(eAll.st.refs)
@@ -109,66 +124,89 @@ FwdVerdict(G, root, out) ==
             ELSE "bad"
 
 (* ---------------------------------------------------------------- back *)
-(* rec must be the Go value (objs[1], objs) handed back *)
 (* struct types of which a record of G went in under a second registered name: see Aliases *)
 Loose(G) == {RegOf(G[j][1]) : j \in {j \in 1..Len(G) : G[j][1] \in SecondNames}}
-RetVerdict(G, objs, rec) ==
-    IF MatchStruct(objs[1], objs, rec, MatchOpts(FALSE, Loose(G))) THEN "ok"
-    ELSE IF DevOn("back-drops-field-kinds") /\ MatchStruct(objs[1], objs, rec, MatchOpts(TRUE, Loose(G)))
-    THEN "known:back-drops-field-kinds"
-    ELSE IF DevOn("back-embedded-field-index") /\ AnyEmb(objs) /\ rec[1] = "rec" /\ rec[2] \in Aliases(objs[1][2], Loose(G))
-    THEN "known:back-embedded-field-index"
-    ELSE "bad"
+Worst(a, b) == IF a = "bad" \/ b = "bad" THEN "bad" ELSE IF a # "ok" THEN a ELSE b
+
+(* index of the (top-level, not embedded) field of struct S with label sel *)
+FieldIdx(S, sel) == CHOOSE i \in 1..Len(StructOf(S)) : FLabel(StructOf(S)[i]) = sel
+
+(* rec (with the record identities occ) must be the Go value (objs[1], objs) handed back -- or, when the      *)
+(* method returns one of its argument's fields (sel # ""), that field.  Identity: one Go object, one record;  *)
+(* named deviation back-sharing-lost: every occurrence comes back as a record of its own.                     *)
+RetVerdict(G, objs, rec, occ, sel) ==
+    LET root == objs[1]
+        i == FieldIdx(root[2], sel)
+        tree(m) == IF sel = "" THEN MatchStruct(root, objs, rec, m)
+                   ELSE MatchB(root[3][i], FType(StructOf(root[2])[i]), objs, rec, m)
+        want(drop) == IF sel = "" THEN OccObj(1, objs, drop)
+                      ELSE OccT(root[3][i], FType(StructOf(root[2])[i]), objs, <<"o", 1>>, <<i>>, drop)
+        ident(drop) == IF SamePattern(want(drop), occ) THEN "ok"
+                       ELSE IF DevOn("back-sharing-lost") /\ AllDistinct(occ) /\ Len(want(drop)) = Len(occ)
+                       THEN "known:back-sharing-lost" ELSE "bad"
+    IN IF tree(MatchOpts(FALSE, Loose(G))) THEN ident(FALSE)
+       ELSE IF DevOn("back-drops-field-kinds") /\ tree(MatchOpts(TRUE, Loose(G)))
+       THEN Worst("known:back-drops-field-kinds", ident(TRUE))
+       ELSE IF DevOn("back-embedded-field-index") /\ sel = "" /\ AnyEmb(objs) /\ rec[1] = "rec"
+               /\ rec[2] \in Aliases(root[2], Loose(G))
+       THEN "known:back-embedded-field-index"
+       ELSE "bad"
 RetErrVerdict(objs) ==
     IF DevOn("back-nil-pointer-panics") /\ AnyNil(objs) THEN "known:back-nil-pointer-panics"
     ELSE IF DevOn("back-embedded-field-index") /\ AnyEmb(objs) THEN "known:back-embedded-field-index"
     ELSE "bad"
 
-Worst(a, b) == IF a = "bad" \/ b = "bad" THEN "bad" ELSE IF a # "ok" THEN a ELSE b
-
 (* a record that reaches itself comes back as a record that reaches itself: it has no finite *)
 (* unfolding, the harness does not project it and only the argument is judged               *)
-EchoVerdict(G, root, out) ==
-    CASE out[1] = "ok" -> (IF Cyclic(G, root) THEN FwdVerdict(G, root, <<"ok", out[2], out[3]>>)
-                           ELSE Worst(FwdVerdict(G, root, <<"ok", out[2], out[3]>>), RetVerdict(G, out[3], out[4])))
-      [] out[1] = "reterr" -> Worst(FwdVerdict(G, root, <<"ok", out[2], out[3]>>), RetErrVerdict(out[3]))
-      [] out[1] = "argerr" -> FwdVerdict(G, root, <<"err">>)
-      [] OTHER -> LET f == FwdVerdict(G, root, <<"crash">>)
+(* out: <<"ok", root, objs, rec, occ>> | <<"reterr", root, objs>> | <<"argerr">> | <<"crash">> *)
+EchoVerdict(G, root, Pm, sel, out) ==
+    CASE out[1] = "ok" -> (IF Cyclic(G, root) THEN FwdVerdict(G, root, Pm, <<"ok", out[2], out[3]>>)
+                           ELSE Worst(FwdVerdict(G, root, Pm, <<"ok", out[2], out[3]>>),
+                                      RetVerdict(G, out[3], out[4], out[5], sel)))
+      [] out[1] = "reterr" -> Worst(FwdVerdict(G, root, Pm, <<"ok", out[2], out[3]>>), RetErrVerdict(out[3]))
+      [] out[1] = "argerr" -> FwdVerdict(G, root, Pm, <<"err">>)
+      [] OTHER -> LET f == FwdVerdict(G, root, Pm, <<"crash">>)
                   IN IF f # "bad" THEN f
                      ELSE IF out[1] = "crash" /\ DevOn("back-cyclic-value-overflows") /\ Cyclic(G, root)
                      THEN "known:back-cyclic-value-overflows" ELSE "bad"
 
 (* the argument is not observable: the record must match Fill, read with the enabled deviations *)
-Echo0Verdict(G, root, out) ==
-    LET e0 == Fill(G, root, NoOpts)
-        cands == {i \in 1..3 : OptOn(i) /\ Fill(G, root, OptSets[i]).ok}
+Echo0Verdict(G, root, Pm, out) ==
+    LET e0 == FillP(G, root, Pm, NoOpts)
+        cands == {i \in 1..3 : OptOn(i) /\ FillP(G, root, Pm, OptSets[i]).ok}
+        rv(i) == RetVerdict(G, FillP(G, root, Pm, OptSets[i]).st.objs, out[2], out[3], "")
     IN IF out[1] = "ok0"
-       THEN (IF e0.ok THEN RetVerdict(G, e0.st.objs, out[2])
-             ELSE IF \E i \in cands : RetVerdict(G, Fill(G, root, OptSets[i]).st.objs, out[2]) # "bad"
-             THEN "known:" \o OptName(CHOOSE i \in cands : RetVerdict(G, Fill(G, root, OptSets[i]).st.objs, out[2]) # "bad")
+       THEN (IF e0.ok THEN RetVerdict(G, e0.st.objs, out[2], out[3], "")
+             ELSE IF \E i \in cands : rv(i) # "bad"
+             THEN "known:" \o OptName(CHOOSE i \in cands : rv(i) # "bad")
              ELSE "bad")
        ELSE IF out[1] = "err0" THEN (IF ~e0.ok THEN "ok" ELSE RetErrVerdict(e0.st.objs))
-       ELSE FwdVerdict(G, root, <<"crash">>)
+       ELSE FwdVerdict(G, root, Pm, <<"crash">>)
 
 RECURSIVE Fold(_, _, _, _)
 Fold(c, i, acc, first) ==
     IF i > Len(c.res) THEN <<acc, first>>
-    ELSE LET v == CASE c.kind = "fwd" -> FwdVerdict(c.g, c.root, c.res[i])
-                    [] c.kind = "echo" -> EchoVerdict(c.g, c.root, c.res[i])
-                    [] OTHER -> Echo0Verdict(c.g, c.root, c.res[i])
+    ELSE LET v == CASE c.kind = "fwd" -> FwdVerdict(c.g, c.root, AnyP, c.res[i])
+                    [] c.kind = "echo" -> EchoVerdict(c.g, c.root, c.param, c.sel, c.res[i])
+                    [] OTHER -> Echo0Verdict(c.g, c.root, c.param, c.res[i])
          IN Fold(c, i + 1, Worst(acc, v), IF first = 0 /\ v # "ok" THEN i ELSE first)
 
-(* kind "hist": a history on ONE record object -- steps <<"togo">>, <<"self">> ((_method r Self:): the record *)
-(* is the receiver, converted implicitly), <<"echo">> ((_method host EchoX: r): the record is an argument),    *)
-(* <<"set", j, key, value>> ((hset nj key: value)); res[i] is the                                              *)
-(* outcome of step i.  Every conversion must give what the same step gives on a fresh record with the        *)
-(* contents the record has at that moment: Fill of the current graph -- whatever happened to the object      *)
-(* before (a conversion that failed must not leave anything behind).                                         *)
+(* kind "hist": a history on ONE record object.  Steps                                                         *)
+(*   <<"togo">>            (togo r)                                                                            *)
+(*   <<"self">>            (_method r Self:)       the record is the receiver, converted implicitly            *)
+(*   <<"selfn", j>>        (_method nj Self:)      the same on the record G[j] below the root                  *)
+(*   <<"echo", Pm>>         (_method host EchoX: r) the record is an argument of a parameter Pm                  *)
+(*   <<"reself", Pm>>       the record handed back by (_method host EchoX: r) is the receiver of Self           *)
+(*   <<"set", j, key, v>>  (hset nj key: v)        <<"del", j, key>>  (hdel nj (quote key))                    *)
+(* res[i] is the outcome of step i.  Every conversion must give what the same step gives on a fresh record     *)
+(* with the contents the record has at that moment: Fill of the current graph -- whatever happened to the      *)
+(* object before (a conversion that failed must not leave anything behind; a field that was removed is zero).  *)
 SetPair(G, j, key, v) ==
     LET ps == G[j][2]
         hit == {i \in 1..Len(ps) : ps[i][1] = key}
     IN [G EXCEPT ![j][2] = IF hit = {} THEN Append(ps, <<key, v>>)
                            ELSE [i \in 1..Len(ps) |-> IF i \in hit THEN <<key, v>> ELSE ps[i]]]
+DelPair(G, j, key) == [G EXCEPT ![j][2] = SelectSeq(@, LAMBDA p : p[1] # key)]
 (* Gs: the contents the record had when the Go object now attached to it was made (<<>>: no object is   *)
 (* attached).  Named deviation method-receiver-stale-after-write: (_method r Self:) converts the         *)
 (* receiver only when no Go object is attached to it, so after a successful conversion and a write to   *)
@@ -182,13 +220,16 @@ Hist(c, G, Gs, i, acc, first) ==
     IF i > Len(c.steps) THEN <<acc, first>>
     ELSE LET st == c.steps[i]
              out == c.res[i]
-             fresh == CASE st[1] = "togo" -> FwdVerdict(G, c.root, out)
-                        [] st[1] \in {"self", "echo"} -> EchoVerdict(G, c.root, out)
+             fresh == CASE st[1] = "togo" -> FwdVerdict(G, c.root, AnyP, out)
+                        [] st[1] = "self" -> EchoVerdict(G, c.root, AnyP, "", out)
+                        [] st[1] = "selfn" -> EchoVerdict(G, st[2], AnyP, "", out)
+                        [] st[1] \in {"echo", "reself"} -> EchoVerdict(G, c.root, st[2], "", out)
                         [] OTHER -> (IF out[1] = "set" THEN "ok" ELSE "bad")
              stale == /\ st[1] = "self" /\ fresh = "bad" /\ DevOn(StaleDev)
-                      /\ Gs # <<>> /\ Gs # G /\ EchoVerdict(Gs, c.root, out) # "bad"
+                      /\ Gs # <<>> /\ Gs # G /\ EchoVerdict(Gs, c.root, AnyP, "", out) # "bad"
              v == IF stale THEN "known:" \o StaleDev ELSE fresh
-             G2 == IF st[1] = "set" THEN SetPair(G, st[2], st[3], st[4]) ELSE G
+             G2 == IF st[1] = "set" THEN SetPair(G, st[2], st[3], st[4])
+                   ELSE IF st[1] = "del" THEN DelPair(G, st[2], st[3]) ELSE G
              converted == out[1] \in {"ok", "reterr"}          \* a Go object was made from the current contents
              Gs2 == IF st[1] = "togo" /\ converted THEN G
                     ELSE IF st[1] = "self" /\ converted /\ ~stale THEN G
